@@ -139,7 +139,8 @@ def build_group(group, repo, log=None):
     os.makedirs(bdir, exist_ok=True)
     with Lock(os.path.join(VERIF, "build", ".lock." + group)):
         drv = build_driver(group, log)
-        exec_srcs = ["props/%s/exec.cpp" % group, "engine/common/report.cpp", "engine/common/alloctrack.cpp"]
+        exec_srcs = ["props/%s/%s" % (group, f) for f in sorted(os.listdir(os.path.join(VERIF, "props", group)))
+                     if f.endswith(".cpp") and f != "gen.cpp"] + ["engine/common/report.cpp", "engine/common/alloctrack.cpp"]
         if g["vsched"]:
             exec_srcs.append("engine/vsched/vsched.cpp")
         extra = [os.path.join(VERIF, "props", group, f) for f in os.listdir(os.path.join(VERIF, "props", group))
